@@ -307,6 +307,9 @@ pub struct Case {
     /// for the eight standard methods: start from the free function (attohttpc::get, post, ...) instead of RequestBuilder::try_new
     #[serde(default)]
     pub via_free_fn: bool,
+    /// (http URLs) the request goes through an http proxy: the same request, with its URL as absolute-form target
+    #[serde(default)]
+    pub via_proxy: bool,
 }
 
 pub struct C07;
@@ -600,11 +603,11 @@ non-trivial = a body or >= 1 param or a custom program with >= 2 writes";
             urlgen::url_spec(true, false),
             proptest::collection::vec(build_op(), 0..7),
             body_spec(),
-            (prop::bool::weighted(0.8), crate::props::c15::short_write_strategy(), any::<bool>()),
+            (prop::bool::weighted(0.8), crate::props::c15::short_write_strategy(), any::<bool>(), prop::bool::weighted(0.2)),
         )
-            .prop_map(|(method, url, ops, body, (allow_compression, short_write, via_free_fn))| {
+            .prop_map(|(method, url, ops, body, (allow_compression, short_write, via_free_fn, via_proxy))| {
                 let method = if method == "CONNECT" { "CONNECTX".to_string() } else { method };
-                Case { method, url, ops, body, allow_compression, short_write, via_free_fn }
+                Case { method, url, ops, body, allow_compression, short_write, via_free_fn, via_proxy }
             })
             .boxed()
     }
@@ -636,7 +639,11 @@ non-trivial = a body or >= 1 param or a custom program with >= 2 writes";
                 Err(e) => return Outcome::fail("C07:url-rejected", format!("try_new rejected {url:?}: {e:?}")),
             },
         };
-        let rb = rb.proxy_settings(no_proxy()).allow_compression(case.allow_compression);
+        let proxied = case.via_proxy && !case.url.https;
+        ctx.label_if(proxied, "through-an-http-proxy(absolute-form)");
+        let rb = rb
+            .proxy_settings(if proxied { attohttpc::ProxySettings::builder().http_proxy(url::Url::parse("http://proxy.test:3128").unwrap()).build() } else { no_proxy() })
+            .allow_compression(case.allow_compression);
         let mut rb = apply_ops(rb, &case.ops, &mut model, &mut params);
         // what the inspector shows before sending is what will be sent
         {
@@ -684,7 +691,13 @@ non-trivial = a body or >= 1 param or a custom program with >= 2 writes";
             model_set(&mut model, "accept-encoding", b"gzip, deflate".to_vec());
         }
         model_set(&mut model, "connection", b"close".to_vec());
-        model_set(&mut model, "host", case.url.host_header().into_bytes());
+        // (for plain http through a proxy the code documents that Host names the proxy; C08 leaves that value unasserted, here the
+        // documented value is expected so that the rest of the header comparison stays exact)
+        if proxied {
+            model_set(&mut model, "host", b"proxy.test:3128".to_vec());
+        } else {
+            model_set(&mut model, "host", case.url.host_header().into_bytes());
+        }
         model_default(&mut model, "accept", b"*/*");
         model_default(&mut model, "user-agent", &user_agent());
         if let Some(ct) = sent.default_content_type {
@@ -708,10 +721,25 @@ non-trivial = a body or >= 1 param or a custom program with >= 2 writes";
         if req.method != case.method {
             return Outcome::fail("C07:method", format!("{} vs {}", req.method, case.method));
         }
-        // target: origin-form, path segments and query pairs
-        let (path, query) = match req.target.split_once('?') {
+        // target: origin-form (through an http proxy: absolute-form, reduced to its origin-form part here), path segments and query pairs
+        let target: String = if proxied {
+            let want_prefix = format!("http://{}", case.url.host_header());
+            let alt_prefix = format!("http://{}:{}", case.url.host_text(), case.url.effective_port());
+            let t = req.target.to_ascii_lowercase();
+            let cut = if t.starts_with(&alt_prefix) && !t[alt_prefix.len()..].starts_with(|c: char| c.is_ascii_digit()) {
+                alt_prefix.len()
+            } else if t.starts_with(&want_prefix) {
+                want_prefix.len()
+            } else {
+                return Outcome::fail("C07:target-form", format!("through an http proxy the target must be the absolute URL {want_prefix}..., got {:?}", req.target));
+            };
+            req.target[cut..].to_string()
+        } else {
+            req.target.clone()
+        };
+        let (path, query) = match target.split_once('?') {
             Some((p, q)) => (p.to_string(), Some(q.to_string())),
-            None => (req.target.clone(), None),
+            None => (target.clone(), None),
         };
         if !path.starts_with('/') {
             return Outcome::fail("C07:target-form", format!("request target {:?} is not origin-form", req.target));
